@@ -362,6 +362,30 @@ def _surface(case, ctx):
     surf = S.build(desc)
     want = lambda tag: only is None or only == tag
 
+    if want('txt2d'):
+        # the 2-D text file of the exchange module (documented: one line per u, one column per v) addresses the same points
+        import os
+        import tempfile
+        from geomdl import exchange
+        rc = dict(case, only='txt2d')
+        tmp = tempfile.mkdtemp(prefix='c13-', dir=os.environ.get('VERIF_TMP') or None)
+        try:
+            path = os.path.join(tmp, 'net.txt')
+            try:
+                exchange.export_txt(surf, path, two_dimensional=True)
+                with open(path) as fh:
+                    lines = [ln for ln in fh.read().split("\n") if ln.strip()]
+                cells = [[[float(x) for x in cell.split(',')] for cell in ln.split(';')] for ln in lines]
+                ctx.check('C13.export_txt2d.cell_u_v', cells == grid, rc, f0, grid, cells, 'line u, column v = control point (u, v)')
+                got, gu, gv = exchange.import_txt(path, two_dimensional=True)
+                ctx.check('C13.import_txt2d.flat_order', (gu, gv) == (su, sv) and [list(p) for p in got] == flat, rc, f0,
+                          dict(sizes=[su, sv], flat=flat), dict(sizes=[gu, gv], flat=got))
+            except Exception as e:
+                ctx.check('C13.export_txt2d.cell_u_v', False, rc, f0, 'a 2-D text file', repr(e))
+        finally:
+            import shutil
+            shutil.rmtree(tmp, ignore_errors=True)
+
     if want('ctrlpts2d'):
         rc = dict(case, only='ctrlpts2d')
         c2 = surf.ctrlpts2d
